@@ -21,5 +21,5 @@ INIT Init
 NEXT Next
 VIEW view
 INVARIANTS TypeOK PcContiguous ViewResolution
-PROPERTIES EventsAnswerFromChain EventsTagged PagesWellFormed ReadsArePure
+PROPERTIES EventsAnswerFromChain BadTokenRejected EventsTagged PagesWellFormed ReadsArePure
 CHECK_DEADLOCK FALSE
